@@ -208,6 +208,7 @@ def check_grates(ctx, cc):
     classes = sorted({ch[4] for ch in chans.list if ch[3]}, key=str)
     Ssum = 0.0
     stat = {cl: [0.0, 0.0, 0.0] for cl in classes}   # sum(ind - p), sum p(1-p), expected count
+    joint = {cl: [0.0, 0] for cl in classes}          # per fired class: sum (a0 dt - 1), number of events
     usable = True
     for k in range(K):
         x, y = states[k], states[k + 1]
@@ -225,6 +226,9 @@ def check_grates(ctx, cc):
             usable = False   # illegal (C07 legality reports it) or ambiguous between two classes
             break
         ev = next(iter(hit))
+        # waiting time and event choice are independent: a0 dt is Exp(1) whatever class fires
+        joint[ev][0] += a0 * (t[k + 1] - t[k]) - 1.0
+        joint[ev][1] += 1
         for cl in classes:
             p = sum(v for ch, v in a if ch[4] == cl and ch[3]) / a0
             stat[cl][0] += (1.0 if cl == ev else 0.0) - p
@@ -245,6 +249,14 @@ def check_grates(ctx, cc):
                 if abs(z) > 7:
                     raise Violation("Gillespie event frequencies: class %s fired %.0f times more than the %.1f expected from the propensities "
                                     "over %d events (z = %.1f)" % (cl, d, exp_, K, z), key="rates:class-frequency")
+        for cl in classes:
+            sj, nj = joint[cl]
+            if nj >= 300:
+                tests += 1
+                z = sj / math.sqrt(nj)
+                if abs(z) > 7:
+                    raise Violation("Gillespie: the waiting times that precede events of class %s have mean a0 dt = %.3f over %d events (z = %.1f); "
+                                    "a0 dt is Exp(1) independently of which event fires" % (cl, 1.0 + sj / nj, nj, z), key="rates:waiting-time-given-class")
     ctx.note(cc, tests >= 2, ["gillespie-rate-tests:%d" % min(tests, 6), "space:" + spec["space"]["type"]] + ([] if usable else ["excluded:null-or-ambiguous"]))
     ctx.count("rate_tests", tests)
 
